@@ -54,6 +54,20 @@ class _LowerIfExp(ast.NodeTransformer):
             return self._lower(node, lambda v: ast.Return(value=v))
         return node
 
+    def visit_With(self, node):
+        # `with (A if c else B): body`  ->  `if c: with A: body  else: with B: body`;  `with nullcontext(): body` is `body`
+        self.generic_visit(node)
+        if len(node.items) == 1 and isinstance(node.items[0].context_expr, ast.IfExp) and node.items[0].optional_vars is None:
+            v = node.items[0].context_expr
+
+            def arm(e, body):
+                if isinstance(e, ast.Call) and not e.args and not e.keywords and \
+                        (isinstance(e.func, ast.Name) and e.func.id == 'nullcontext' or isinstance(e.func, ast.Attribute) and e.func.attr == 'nullcontext'):
+                    return body
+                return [ast.copy_location(ast.With(items=[ast.withitem(context_expr=e, optional_vars=None)], body=body, type_comment=None), node)]
+            return ast.copy_location(ast.If(test=v.test, body=arm(v.body, node.body), orelse=arm(v.orelse, [_copy_tree(s) for s in node.body])), node)
+        return node
+
     def visit_Lambda(self, node):
         return node
 
@@ -223,6 +237,19 @@ class _InlineTemps(ast.NodeTransformer):
                 if isinstance(a, ast.Assign) and len(a.targets) == 1 and isinstance(a.targets[0], ast.Name) and b is not None:
                     t = a.targets[0].id
                     use = b.value if isinstance(b, (ast.Return, ast.Assign)) else None
+                    # `t = E` / `for x in t:` and `t = E` / `with t:` -- the iterable / context manager is the first thing evaluated
+                    if isinstance(b, (ast.For, ast.AsyncFor)) and isinstance(b.iter, ast.Name) and b.iter.id == t and \
+                            loads.get(t, 0) == 1 and stores.get(t, 0) == 1 and t not in params:
+                        b.iter = a.value
+                        out.append(b)
+                        i += 2
+                        continue
+                    if isinstance(b, (ast.With, ast.AsyncWith)) and len(b.items) == 1 and isinstance(b.items[0].context_expr, ast.Name) and \
+                            b.items[0].context_expr.id == t and loads.get(t, 0) == 1 and stores.get(t, 0) == 1 and t not in params:
+                        b.items[0].context_expr = a.value
+                        out.append(b)
+                        i += 2
+                        continue
                     # only plain copies: merging the temporary into a larger expression would put two calls into one statement and
                     # lose their order for the path rules (statement granularity)
                     if isinstance(use, ast.Name) and use.id == t and loads.get(t, 0) == 1 and stores.get(t, 0) == 1 and t not in params and \
@@ -257,6 +284,8 @@ def normalise_tree(tree):
     tree = _ForUnpackFold().visit(tree)
     tree = _LoopToComp().visit(tree)
     tree = _InlineTemps().visit(tree)
+    from .simplify import simplify_tree
+    tree = simplify_tree(tree)
     return ast.fix_missing_locations(tree)
 
 
@@ -336,6 +365,18 @@ class Fn:
             from .cfg import CFG
             self._cfg = CFG(self.node)
         return self._cfg
+
+    @property
+    def canon(self):
+        """closed forms of this function's expressions (flow.Canon), built once"""
+        if getattr(self, '_canon', None) is None:
+            from .flow import Canon
+            self._canon = Canon(self)
+        return self._canon
+
+    def ctext(self, e, at=None):
+        """closed-form text of expression e: locals replaced by the definition that reaches the use, no blanks"""
+        return self.canon.text(e, at)
 
     @property
     def params(self):
@@ -535,6 +576,18 @@ class Repo:
         new = Fn(self, fn.qn, fn.mod, node, fn.cls)
         new.inline_report = report
         return new
+
+    def specialise(self, fn, bindings):
+        """the function specialised for constant values of some expressions it reads (sa/special.py) -> Fn (not registered)"""
+        from .special import specialise, module_tables
+        if not hasattr(fn.mod, '_tables'):
+            fn.mod._tables = module_tables(fn.mod.tree)
+        node = specialise(fn.node, bindings, fn.mod._tables)
+        node._parent = None
+        for n in ast.walk(node):
+            for ch in ast.iter_child_nodes(n):
+                ch._parent = n
+        return Fn(self, fn.qn, fn.mod, node, fn.cls)
 
     # ---------------------------------------------------------------- lookup
     def fn(self, qn):
